@@ -81,6 +81,8 @@ def static_gate(repo):
 
 
 def to_gallina(case, obs):
+    if case.get("kind") == "probe":
+        return None
     if rc.is_race(case):
         return rc.to_gallina(case, obs)
     from props import rec_common
@@ -95,8 +97,25 @@ def explain(case, obs):
     return "explain_case (%s)" % rec_common.to_gallina(case, obs)
 
 
+LAZY = ["generator", "iterator", "filelike", "lock", "generator-unbounded"]
+SHAPES = ["function-no-args", "function-kwargs-only", "method-self-by-keyword", "class-op-unhashable-first",
+          "class-op-no-args", "method-plain", "input-no-args", "output-kwargs-only"]
+
+
+def probe_cases():
+    """values and call shapes outside the model's DSL (implementation side only, see harness/impl/c04_probes.py)"""
+    out = []
+    for v in LAZY:
+        for enabled in (True, False):
+            for site in ("in", "out"):
+                out.append(dict(kind="probe", probe="lazy", value=v, enabled=enabled, site=site))
+    for sh in SHAPES:
+        out.append(dict(kind="probe", probe="shape", shape=sh))
+    return out
+
+
 def generate(rng, tier):
-    cases = rc.race_cases(rng, tier)
+    cases = probe_cases() + rc.race_cases(rng, tier)
     n = 260 if tier == "quick" else 4000
     for i in range(n):
         runs = []
@@ -111,6 +130,28 @@ def generate(rng, tier):
 def direct(case, obs):
     if "driver_exception" in obs:
         return [("driver", obs["driver_exception"] + obs.get("trace", "")[-400:])]
+    if case.get("kind") == "probe":
+        fails = []
+        if case["probe"] == "lazy":
+            who = "an intercepted %s returning a %s, recording %s" % (
+                {"in": "input", "out": "output"}[case["site"]], case["value"], "enabled" if case["enabled"] else "disabled")
+            if obs["outcome"] != ["val", True]:
+                fails.append(("outcome-differs", "%s: the operation ended with %s instead of returning" % (who, obs["outcome"])))
+            elif not obs["same_object"]:
+                fails.append(("identity", "%s: the caller received a different object than the wrapped function returned" % who))
+            elif not obs["untouched"] or obs["runaway"]:
+                fails.append(("lazy-value-consumed", "%s: the returned object was advanced / consumed by the recorder" % who))
+            if obs["bodies"] != 1:
+                fails.append(("trace-differs", "%s: the wrapped body ran %d times" % (who, obs["bodies"])))
+        else:
+            who = "recording disabled, call shape %s" % case["shape"]
+            if not obs["same_outcome"]:
+                fails.append(("outcome-differs", "%s: undecorated %s, decorated %s" % (who, obs["twin"], obs["decorated"])))
+            elif not obs["same_bodies"]:
+                fails.append(("trace-differs", "%s: the wrapped body was not executed as by the undecorated call" % who))
+            if obs["cassette"]:
+                fails.append(("cassette-touched-while-disabled", "%s: %s" % (who, obs["cassette"])))
+        return fails
     if rc.is_race(case):
         return rc.direct_leaks(case, obs)
     fails = []
@@ -135,17 +176,19 @@ _hist_features, _hist_nontrivial = features, nontrivial     # (from rec_common)
 
 
 def features(case):      # noqa: F811
+    if case.get("kind") == "probe":
+        return {"probe:" + case["probe"], "probe-" + case["probe"] + ":" + (case.get("value") or case.get("shape"))}
     if rc.is_race(case):
         return rc.features(case)
     return _hist_features(case)
 
 
 def nontrivial(case):    # noqa: F811
-    return True if case.get("kind") == "race" else _hist_nontrivial(case)
+    return True if case.get("kind") in ("race", "probe") else _hist_nontrivial(case)
 
 
 def shrink_candidates(case):     # noqa: F811
-    if case.get("kind") == "race":
+    if case.get("kind") in ("race", "probe"):
         return
     from props import rec_common
     for c in rec_common.shrink_candidates(case):
